@@ -108,6 +108,7 @@ pub struct McResult {
     pub t_end_us: u64,
     pub wedge: bool,
     pub excluded: u64,
+    pub preds: super::WirePredicates,
 }
 
 pub const TOKEN_LEN: usize = 8;
@@ -391,6 +392,6 @@ pub fn run_with(case: &McCase, trace: bool, setup: impl FnOnce(&Net)) -> McResul
             tokio::time::sleep(Duration::from_micros(te - now)).await;
         }
         let t_end_us = now_us(t0);
-        McResult { log: net.log(), conns: sh.conns.lock().clone(), accs: sh.accs.lock().clone(), conn_events: super::take_conn_events(), addrs, t_end_us, wedge: super::take_wedge(), excluded: net.excluded() }
+        McResult { log: net.log(), conns: sh.conns.lock().clone(), accs: sh.accs.lock().clone(), conn_events: super::take_conn_events(), addrs, t_end_us, wedge: super::take_wedge(), excluded: net.excluded(), preds: net.predicates() }
     })
 }
